@@ -10,9 +10,10 @@ core through real pysam.AlignedSegment objects.
 Scenario (DESIGN 4, C06)
   K (enumerated)  reference length, variant kinds / lengths / VCF padding, variant
                   positions, read start and end, CIGAR decoration (soft / hard
-                  clips, = and X operators, an N skip, base qualities), an
-                  unrelated second variant, mate pairs, overhang, which haplotype
-                  allele the read carries
+                  clips, = and X operators, an N skip, base qualities), a second
+                  variant (listed, or an unrelated difference of the haplotype),
+                  mate pairs and their orientations, overhang, which allele the
+                  read's haplotype carries
   S (symbolic)    every reference base, every inserted / substituted base
                   (characters over ACGT, REF != ALT), soft-clipped bases
   derived         the read's bases and its canonical CIGAR are computed in the
@@ -28,6 +29,15 @@ Oracle (exactly the statement, weaker reading where it is open):
       difference between the read's haplotype and the reference and no reference skip
   (D) without a reference the carried allele IS recorded for SNVs and unshiftable
       insertions / deletions - also with soft clips, unrelated indels, N skips, mates
+
+Sub-checks
+  one     one listed variant, one alignment: all positions, all read intervals, decorations,
+          padded / right-anchored / multi-allelic records, overhang 0..3
+  two     two variants in one read over the whole reference: all kinds and distances
+  skip    one variant and a reference skip (N) at every place
+  paired  two mates (FR / RF / FF / RR) over two variants, merged by read name
+
+Seven genuine defects are rediscovered on the unchanged tree (known_findings.jsonl).
 """
 import itertools
 
@@ -441,6 +451,8 @@ class _C06Base(SubCheck):
         "'fully covers': the VCF record interval [POS, POS+len(REF)) lies inside the aligned interval, insertions/deletions additionally have an aligned base on both sides of their normalised position, no reference skip touches the variant",
         "'does not overlap' (weaker reading): the VCF record interval lies outside [reference_start, reference_end) and the normalised insertion point does not touch it either",
         "listed variants have distinct VCF positions (asserted by ReadSetReader.read)",
+        "'the allele that haplotype carries' is claimed only where it is defined: no other difference of the haplotype overlaps the variant's record (or, indel against indel, touches it), and the haplotype's bases are not also an exact copy of a haplotype with another allele of that variant (equivalent indels in a repeat, differences that cancel each other)",
+        "with two alignments of one read name the statement is applied to the merged read; 'fully covers' = at least one mate covers fully and none partially",
         "(C) is asserted when no other difference between haplotype and reference and no reference skip lies inside or next to the re-alignment window (weaker reading: 'regardless of ...' is read as belonging to the sentence about detection without a reference)",
         "(D) is asserted for variants whose normalised form is an SNV or an insertion/deletion that cannot be shifted by one base, and that do not share their normalised position / overlap with another listed variant (whatshap discards such variants by design: detect_non_overlapping_variants)",
     ]
@@ -714,7 +726,6 @@ class One(_C06Base):
 
     def shapes(self, tier):
         out = []
-        L = 6 if tier == "quick" else 8
         ovs = [0, 1, 2] if tier == "quick" else [0, 1, 2, 3]
         modes = [("cigar", 0)] + [("realign", ov) for ov in ovs]
         for mode, ov in modes:
@@ -722,6 +733,7 @@ class One(_C06Base):
                 nalt = KINDS[kname][4] if len(KINDS[kname]) > 4 else 1
                 for h in range(nalt + 1):
                     for deco in DECOS:
+                        L = self._L(tier, deco)
                         if deco != "plain" and (ov == 0 and mode == "realign"):
                             continue
                         if tier == "quick" and deco != "plain" and (kname not in ("snv", "ins1", "del2", "mnp2") or ov == 1):
@@ -731,9 +743,15 @@ class One(_C06Base):
                         out.append(dict(mode=mode, ov=ov, kind=kname, h=h, deco=deco, L=L))
         return out
 
+    @staticmethod
+    def _L(tier, deco):
+        if tier == "quick":
+            return 7 if deco == "plain" else 6
+        return 10 if deco == "plain" else 8
+
     def bounds(self, tier):
-        L = 6 if tier == "quick" else 8
-        return "reference of %d symbolic bases; one variant of each kind in %s at every position; one read over every interval [rs, re) of the reference; decorations %s; every carried allele (ref/alt, second alt of the two multi-allelic kinds); without reference and with reference for overhang %s (overhang 0 without decorations; the default overhang 10 exceeds the reference length and is outside the bound)" % (L, sorted(KINDS), sorted(DECOS), "0..2" if tier == "quick" else "0..3")
+        L = "%d (plain CIGAR) / %d (decorated)" % (self._L(tier, "plain"), self._L(tier, "eqx"))
+        return "reference of %s symbolic bases; one variant of each kind in %s at every position; one read over every interval [rs, re) of the reference; decorations %s; every carried allele (ref/alt, second alt of the two multi-allelic kinds); without reference and with reference for overhang %s (overhang 0 without decorations; the default overhang 10 exceeds the reference length and is outside the bound)" % (L, sorted(KINDS), sorted(DECOS), "0..2" if tier == "quick" else "0..3")
 
     def harness(self, e, shape, impl):
         L = shape["L"]
